@@ -18,8 +18,10 @@ PYTHONPATH=$WT timeout 600 /venv/bin/python $DST/demo.py > $DST/demo_unchanged.l
 git apply $DST/patch.diff || { echo "PATCH DOES NOT APPLY"; exit 2; }
 PYTHONPATH=$WT timeout 600 /venv/bin/python $DST/demo.py > $DST/demo_patched.log 2>&1; B=$?
 echo "demo: unchanged exit=$A patched exit=$B"
+if [ -z "$SKIP_TESTS" ]; then
 ( /venv/bin/python -m pytest -q -p no:cacheprovider --timeout=900 --deselect tests/test_nonlinear_funs.py::TestGradientNormAdditional::test_2d > $DST/testsuite_patched.log 2>&1; echo "testsuite exit=$?" >> $DST/testsuite_patched.log ) &
 TS=$!
+fi
 cd /repo && git apply $DST/patch.diff || { echo "PATCH DOES NOT APPLY to /repo"; exit 2; }
 RES=""
 for c in "$@"; do
@@ -29,8 +31,7 @@ for c in "$@"; do
   echo "check $c exit=$e violations=$v :: $(grep -m1 -A1 '^VIOLATION' $DST/check_$c.log | tail -1 | cut -c1-220)"
 done
 cd /repo && git checkout -- . && git status --short
-wait $TS
-tail -2 $DST/testsuite_patched.log | tr '\n' ' '; echo
+if [ -z "$SKIP_TESTS" ]; then wait $TS; tail -2 $DST/testsuite_patched.log | tr '\n' ' '; echo; fi
 git -C /repo worktree remove --force $WT
 rm -rf /verif/replays/*
 echo "SUMMARY $LABEL demo_unchanged=$A demo_patched=$B$RES"
